@@ -34,6 +34,12 @@ class TPMS_PARAMS:
         new_type._encrypted = True
         return tpm_dataclass(new_type)
 
+    @classmethod
+    def can_be_encrypted(cls) -> bool:
+        """Parameter encryption applies to the first parameter and only if that is a sized buffer (TPM2B)."""
+        params = list(getattr(cls, "__annotations__", {}).values())
+        return len(params) > 0 and params[0].__name__.startswith("TPM2B")
+
     @staticmethod
     def is_encrypted_params(fields_dict: any) -> bool:
         """For encrypted params, the first field/param contains .size and .encryptedParam"""
